@@ -126,3 +126,15 @@ let () =
   Driver.register "go.align" cmd_align;
   Driver.register "go.rotpre" cmd_rotpre;
   Driver.register "go.rotate1" cmd_rotate1
+
+(* go.rotatec16 sys c s axis evs: rotate with add_gradients = the model of property C16 (Model/AddGrad.v) *)
+let cmd_rotatec16 r =
+  let sy = rd_sys r in
+  let c = rd_q r in let s = rd_q r in
+  let axis = rd_nat r in
+  let evs = rd_list rd_rev r in
+  match rotate (add_c16 sy) c s axis evs with
+  | Err e -> "ERR " ^ err_name e
+  | OK l -> "OK " ^ pr_list pr_rev l
+
+let () = Driver.register "go.rotatec16" cmd_rotatec16
